@@ -59,6 +59,13 @@ func GroupByHelper(size int, underlying interface{}) (*groupBy, error) {
 
 	switch u.Kind() {
 	case reflect.Array, reflect.Slice:
+		if u.Kind() == reflect.Array && !u.CanAddr() {
+			// an array passed by value can not be sliced in place
+			a := reflect.New(u.Type()).Elem()
+			a.Set(u)
+			u = a
+		}
+
 		if u.Len() == size {
 			return &groupBy{
 				group: []reflect.Value{u},
